@@ -902,9 +902,10 @@ def metadata_print_consistent(t, strict=True):
     for i, a in enumerate(ms):
         for b in ms[i + 1:]:
             same_print = ct.cmeta(a) == ct.cmeta(b)
-            if same_print and not a == b:
+            eq = py_meta_key(a) == py_meta_key(b)      # the harness's own reading of ==, never the library's
+            if same_print and not eq:
                 return False
-            if strict and (a == b) and not same_print:
+            if strict and eq and not same_print:
                 return False
     return True
 
